@@ -193,6 +193,58 @@ theorem negB'_pos (c : FitCfg) (h : 0 < c.posB) : 0 < c.negB' := by
 theorem ceilDiv_mul (m B : Nat) (hB : 0 < B) : ceilDiv (m * B) B = m := by
   rw [← sliceSizes_length _ _ hB, sliceSizes_mul _ _ hB, List.length_replicate]
 
+/-- `n` epochs, each = the same training calls followed by that epoch's evaluator calls -/
+theorem callsTotal_epochs (epoch : List Call) (g : Nat → List Call) (n : Nat) :
+    callsTotal (((List.range n).map (fun j => epoch ++ g j)).flatten)
+      = n * callsTotal epoch + callsTotal (((List.range n).map g).flatten) := by
+  induction n with
+  | zero => simp [callsTotal]
+  | succ n ih =>
+    rw [List.range_succ, List.map_append, List.map_append, List.flatten_append, List.flatten_append,
+      callsTotal_append, callsTotal_append, ih]
+    simp only [List.map_cons, List.map_nil, List.flatten_cons, List.flatten_nil, List.append_nil, callsTotal_append]
+    ring
+
+/-- calls made only in the iterations selected by `P` -/
+theorem callsTotal_selected (P : Nat → Bool) (L : List Call) (n : Nat) :
+    callsTotal (((List.range n).map (fun j => if P j then L else [])).flatten)
+      = ((List.range n).filter P).length * callsTotal L := by
+  induction n with
+  | zero => simp [callsTotal]
+  | succ n ih =>
+    rw [List.range_succ, List.map_append, List.flatten_append, callsTotal_append, ih, List.filter_append,
+      List.length_append]
+    cases h : P n <;> simp [h, callsTotal] <;> ring
+
+theorem evalCb_stat_ok (A : Arch) (cb : EvalCb) :
+    (statCalls A cb.numSamples cb.numChains cb.burnIn cb.steps none).2 = none := by
+  unfold statCalls
+  have hc : ¬ (statChains cb.numSamples cb.numChains none = 0 ∨ cb.numSamples = 0) := by
+    unfold statChains EvalCb.numSamples
+    simp only []
+    split
+    · rename_i h
+      have : cb.numChains ≠ 0 := by simpa using h
+      omega
+    · omega
+  rw [if_neg hc]
+
+/-- the evaluator callback's draws over all epochs of a `fit` -/
+theorem callsTotal_evalCalls (A : Arch) (c : FitCfg) :
+    callsTotal (((List.range c.numEpochs).map (fun j => evalCalls A c (c.startEpoch + j))).flatten) = evalDraws A c := by
+  unfold evalCalls evalDraws
+  cases c.evalCb with
+  | none =>
+    have := callsTotal_selected (fun _ => false) [] c.numEpochs
+    simpa [callsTotal] using this
+  | some cb =>
+    simp only []
+    have := callsTotal_selected (fun j => decide ((c.startEpoch + j) % cb.period = 0))
+      (statCalls A cb.numSamples cb.numChains cb.burnIn cb.steps none).1 c.numEpochs
+    simp only [decide_eq_true_eq] at this
+    rw [this, callsTotal_stat _ _ _ _ _ _ (evalCb_stat_ok A cb)]
+    rfl
+
 /-- **closed form of the number of torch draws of a completed `fit`.** -/
 theorem callsTotal_fit (A : Arch) (c : FitCfg) (hok : (fitCalls A c).2 = none) :
     callsTotal (fitCalls A c).1 = fitDraws A c := by
@@ -207,7 +259,9 @@ theorem callsTotal_fit (A : Arch) (c : FitCfg) (hok : (fitCalls A c).2 = none) :
   have hpos : 0 < c.posB := Nat.pos_of_ne_zero h2
   have hneg := negB'_pos c hpos
   by_cases h3 : c.numEpochs = 0
-  · simp [h3, callsTotal]
+  · have := callsTotal_evalCalls A c
+    simp only [h3, List.range_zero, List.map_nil, List.flatten_nil, callsTotal] at this
+    simp [h3, callsTotal, ← this]
   simp only [h3, if_false] at hok ⊢
   -- the shuffle
   unfold shuffleCalls at hok ⊢
@@ -216,13 +270,13 @@ theorem callsTotal_fit (A : Arch) (c : FitCfg) (hok : (fitCalls A c).2 = none) :
     simp only [hb] at hok ⊢
     by_cases hs : c.negB' = c.posB
     · simp only [hs, if_true, true_and] at hok ⊢
-      rw [callsTotal_replicate_flatten, callsTotal_append, callsTotal_batch _ _ _ _ _ _ rfl hpos]
+      rw [callsTotal_epochs, callsTotal_evalCalls, callsTotal_append, callsTotal_batch _ _ _ _ _ _ rfl hpos]
       simp [callsTotal]
     · simp only [hs, if_false, and_false] at hok ⊢
       by_cases hN : c.N = 0
       · simp [hN] at hok
       · simp only [hN, if_false] at hok ⊢
-        rw [callsTotal_replicate_flatten, callsTotal_append, callsTotal_batch]
+        rw [callsTotal_epochs, callsTotal_evalCalls, callsTotal_append, callsTotal_batch]
         · simp [callsTotal]
         · rw [sliceSizes_length _ _ hpos, sliceSizes_length _ _ hneg, ceilDiv_mul _ _ hneg]
         · exact hneg
@@ -233,7 +287,7 @@ theorem callsTotal_fit (A : Arch) (c : FitCfg) (hok : (fitCalls A c).2 = none) :
     · simp only [hM, if_false] at hok ⊢
       have hne : ¬ ((some M : Option Nat) = none ∧ c.negB' = c.posB) := by simp
       simp only [hne, if_false]
-      rw [callsTotal_replicate_flatten, callsTotal_append, callsTotal_batch]
+      rw [callsTotal_epochs, callsTotal_evalCalls, callsTotal_append, callsTotal_batch]
       · simp [callsTotal]
       · rw [sliceSizes_length _ _ hpos, sliceSizes_length _ _ hneg, ceilDiv_mul _ _ hneg]
       · exact hneg
